@@ -29,7 +29,7 @@ type clNode struct {
 	n       *world.Node
 	phase   string // run | leaving | left | crashed
 	epoch   int
-	view    map[string]int // memberlist view of this node: 1 alive, 2 dead
+	view    map[string]int // memberlist view of this node: 1 alive, 2 dead, 3 left (dead by the member's own announcement)
 	outbox  map[string]bool
 	threads []vsched.Handle
 	leaveTh *vsched.Handle
@@ -135,7 +135,32 @@ func (cl *cluster) learnDead(k, x *clNode) {
 		return
 	}
 	k.view[x.name] = 2
+	if !x.mlAlive() && (x.phase == "leaving" || x.phase == "left") {
+		k.view[x.name] = 3 // x announced its own departure at the memberlist level
+	}
 	k.n.Events().NotifyLeave(cl.mlnode(k, x))
+}
+
+// mergeTable is the node-table half of a state exchange as live memberlist does it
+// (conformance harness, DESIGN.md 2.3 (c)): alive entries are adopted, except that a
+// receiver which holds the SENDER itself dead ignores the sender's unchanged alive
+// claim -- the sender refutes once it sees itself listed dead in the reply, so that
+// alive notification arrives after the exchange (the sender is returned as deferred);
+// an entry listed as left makes the receiver declare that node dead inside the exchange.
+func (cl *cluster) mergeTable(from, to *clNode) (deferred bool) {
+	for _, x := range cl.aliveKnown(from) {
+		if x == from && to.view[from.name] >= 2 {
+			deferred = true
+			continue
+		}
+		cl.learnAlive(to, x)
+	}
+	for _, x := range cl.nodes {
+		if x != to && x != from && from.view[x.name] == 3 && to.view[x.name] == 1 && !x.mlAlive() {
+			cl.learnDead(to, x)
+		}
+	}
+	return deferred
 }
 
 // settle runs the system to quiescence and finishes lifecycle calls that returned.
@@ -230,17 +255,18 @@ func (cl *cluster) pushPull(a, b *clNode, join bool) {
 	lb := b.n.Delegate().LocalState(join)
 	// memberlist merges the node tables first (alive nodes only; it never declares
 	// a node dead from a push/pull), then hands the user state to the delegate
-	an, bn := cl.aliveKnown(a), cl.aliveKnown(b)
-	for _, x := range an {
-		cl.learnAlive(b, x)
-	}
+	lateA := cl.mergeTable(a, b)
 	b.n.Delegate().MergeRemoteState(la, join)
 	cl.transfer(a, b)
-	for _, x := range bn {
-		cl.learnAlive(a, x)
-	}
+	lateB := cl.mergeTable(b, a)
 	a.n.Delegate().MergeRemoteState(lb, join)
 	cl.transfer(b, a)
+	if lateA {
+		cl.learnAlive(b, a)
+	}
+	if lateB {
+		cl.learnAlive(a, b)
+	}
 }
 
 // transfer: a state sync from -> to carries what from knows about the members it
@@ -317,20 +343,17 @@ func (cl *cluster) apply(act string) bool {
 			return false
 		}
 		cl.used++
+		late := false
 		a.n.Tr.Dial = func(ad memberlist.Address) (net.Conn, error) {
 			return world.NewPushPullConn(func(req []byte) []byte {
 				_, ustate, _, _ := world.DecodePushPullRequest(req)
 				lb := b.n.Delegate().LocalState(true)
-				for _, x := range cl.aliveKnown(a) {
-					cl.learnAlive(b, x)
-				}
+				late = cl.mergeTable(a, b)
 				if len(ustate) > 0 {
 					b.n.Delegate().MergeRemoteState(ustate, true)
 				}
 				cl.transfer(a, b)
-				for _, x := range cl.aliveKnown(b) {
-					cl.learnAlive(a, x)
-				}
+				cl.mergeTable(b, a)
 				cl.transfer(b, a)
 				return world.EncodePushPull(nil, lb, true)
 			}), nil
@@ -339,6 +362,9 @@ func (cl *cluster) apply(act string) bool {
 			cl.violate("harness: join failed", "harness", err.Error())
 		}
 		a.n.Tr.Dial = nil
+		if late {
+			cl.learnAlive(b, a) // a's refutation of "dead", gossiped right after the exchange
+		}
 	case "leave":
 		a := node(f[1])
 		if a == nil || a.phase != "run" {
